@@ -2,21 +2,19 @@
 From RU Require Import Base Types WireSpec TypesProofs LibWrite LibWriteProofs.
 Open Scope N_scope.
 
-(* FULL STATEMENT: for every writable type and every value, writing then reading yields the value and consumes exactly
-   what was written, and unrepresentable values are refused.  It is FALSE of the faithful model in three places
-   (the refuted examples below, known findings C16-a/b/c). *)
+(* FULL STATEMENT: for every writable type and every value, writing then reading yields the value and consumes exactly what was
+   written, and unrepresentable values are refused.  With the three writer defects repaired in /repo (fixed: C16-a/b/c) it holds of the
+   model for every writable type tree with distinct field names and every typed value: *)
 
-(* what is proved: on every writable type tree with distinct field names, for every typed value without those three
-   holes (ASCII text, no None for an AllowNone dict; typing forces fixed arrays to their declared length), the writers
-   produce exactly the statement's wire encoding ... *)
+(* the writers produce exactly the statement's wire encoding - non-ASCII text, None for an AllowNone dict and fixed-size arrays included *)
 Theorem C16_lib_write_is_wire_encode : forall t hdr v,
-  writable t = true -> wf_keys t -> has_type write_limits t v -> plain t v ->
+  writable t = true -> wf_keys t -> has_type write_limits t v ->
   lib_write hdr t v = Ok (wire_encode hdr t v).
 Proof. exact lib_write_is_wire_encode. Qed.
 Print Assumptions C16_lib_write_is_wire_encode.
 (* ... so the library's reader reads back exactly the value and leaves exactly what followed *)
 Theorem C16_lib_write_read : forall t hdr v bs rest,
-  writable t = true -> wf_keys t -> has_type write_limits t v -> plain t v ->
+  writable t = true -> wf_keys t -> has_type write_limits t v ->
   lib_write hdr t v = Ok bs -> decode hdr t (bs ++ rest) = Ok (v, rest).
 Proof. exact lib_write_read. Qed.
 Print Assumptions C16_lib_write_read.
@@ -31,13 +29,15 @@ Proof. exact refused_long_blob. Qed.
 Theorem C16_refused_arg_count : forall hdr ts vs, length ts <> length vs -> write_args hdr ts vs = Err ERuntime.
 Proof. exact refused_arg_count. Qed.
 
-(* the refutations *)
-Example C16_refuted_none_for_allownone :
-  lib_write 1 (TDict [("a"%string, TUInt 1)] true) VNone = Err EType /\ wire_encode 1 (TDict [("a"%string, TUInt 1)] true) VNone = [x00].
-Proof. exact refuted_none_for_allownone. Qed.
-Example C16_refuted_non_ascii_text :
-  exists bs, lib_write 1 TString (VStr [xc3; xa9]) = Ok bs /\ decode 1 TString (bs ++ []) <> Ok (VStr [xc3; xa9], []).
-Proof. exact refuted_non_ascii_text. Qed.
-Example C16_refuted_fixed_array_length :
-  lib_write 1 (TArray (TUInt 1) (Some 3%nat)) (VList (TUInt 1) [VInt 1; VInt 2]) = Ok [x01; x02].
-Proof. exact refuted_fixed_array_length. Qed.
+(* the three former holes, as theorems about the repaired writers *)
+Theorem C16_none_for_allownone : forall fs hdr, lib_write hdr (TDict fs true) VNone = Ok [x00] /\ decode hdr (TDict fs true) [x00] = Ok (VNone, []).
+Proof. exact none_for_allownone. Qed.
+Theorem C16_none_refused_without_allownone : forall fs hdr, lib_write hdr (TDict fs false) VNone = Err EType.
+Proof. exact none_refused_without_allownone. Qed.
+Example C16_non_ascii_text_roundtrip :
+  lib_write 1 TString (VStr [xc3; xa9]) = Ok [x02; xc3; xa9] /\ decode 1 TString [x02; xc3; xa9] = Ok (VStr [xc3; xa9], []).
+Proof. exact non_ascii_text_roundtrip. Qed.
+Theorem C16_refused_fixed_array_length : forall e n et l hdr, length l <> n -> lib_write hdr (TArray e (Some n)) (VList et l) = Err EValue.
+Proof. exact refused_fixed_array_length. Qed.
+Print Assumptions C16_none_for_allownone.
+Print Assumptions C16_refused_fixed_array_length.
